@@ -139,6 +139,25 @@ CLAIMS['C17'] = dict(category='proof', ref='5 Core F, 8 C17',
          "PARTIAL: the ring's own wrap/blocking is Core D; that every committed packet is well-formed MQTT is C03; that no write bypasses wmu is C18; Len()-vs-Encode() "
          "length mismatch (A2) belongs to C03.")
 
+CLAIMS['C16'] = dict(category='proof', ref='5 Core F, 8 C16',
+    text="Lean 4 theorems, for ALL schedules, buffer fill states and causes of end, over a small-step model of one connection's life-cycle "
+         "at ring-call granularity (receiver, processor, sender, any number of stop() callers and of external writers; "
+         "Model/Lifecycle.lean): stop's effects happen exactly once, in order, after the three goroutines have exited (C16_stop_once); an "
+         "explicit natural-number rank strictly decreases with every step of every thread, so no schedule takes more than rank(s) steps "
+         "(C16_teardown_bounded); in every reachable state where the connection has ended and nothing can run, the teardown is complete "
+         "unless the processor is inside a delivery held up by a still-open connection that has stopped reading - the property's exemption, "
+         "predicate HeldUp - (C16_no_deadlock_partial, C16_teardown_completes); once stop() has been called and no such delivery is "
+         "pending it always completes (C16_stop_completes, C16_server_close); afterwards deliveries to the connection fail at once and "
+         "never dereference nil (C16_no_foreign_panic, C16_late_delivery_fails_fast). FULL STATEMENT FALSE of the code: a packet longer "
+         "than ring size - 8 KiB arriving in pieces parks receiver and processor for good (C16_no_deadlock_counterexample, open finding F3, "
+         "witness replayed on every run); the partial theorems exclude exactly that state (ChunkWedge). Closed counterexamples show the model "
+         "wedging with the old ring behaviour (D2), panicking with the old clearing stop (F1), and wedging when Wait precedes the Close calls. "
+         "The order of stop, the deferred recovers and Done-then-stop are regenerated from the source and tied by decide. Tied to the real "
+         "broker by fault sequences (6 buffer conditions x 6 causes x order of ends, raw clients that stop reading). PARTIAL: bounded time = "
+         "bounded number of own steps under weak fairness of the Go scheduler (trusted); socket semantics are parameters; the ring "
+         "contract is C15's; one connection is modelled, the broker around it is environment.",
+    technique='machine-checked proof in Lean 4 (invariants + termination measure of a concurrent small-step program, for all schedules) + fault-sequence correspondence on the real broker')
+
 CLAIMS['C14'] = dict(category='proof', ref='5 Core D, 8 C14',
     text="Lean 4 theorems over all thread programs and all schedules of the small-step model of service/buffer.go (one step per shared access, per byte copied): safety invariant preserved by every step; the bytes the consumer obtained are exactly the source stream prefix and lie below the producer cursor; no producer step writes a cell of the consumer's uncommitted window; model tied to the code by schedules replayed on the real buffer (yield hooks), lock-structure facts by decide",
     technique='machine-checked proof in Lean 4 (invariants of a concurrent small-step program, for all schedules) + differential correspondence of schedules on the real buffer',
